@@ -25,8 +25,8 @@ static void type_json(TypeIndex t) {
 }
 static void wrapper_json(FunctionWrapperIndex w, const char *kind) {
   FunctionIndex f = interrogate_wrapper_function(w);
-  printf("{\"kind\":\"%s\",\"index\":%d,\"name\":\"%s\",\"function\":\"%s\",\"function_index\":%d,\"is_method\":%d,\"is_constructor\":%d,\"is_destructor\":%d,\"is_copy_constructor\":%d,\"callable_by_name\":%d,\"has_return\":%d,\"caller_manages\":%d,\"prototype\":\"%s\"",
-         kind, w, esc(interrogate_wrapper_name(w)).c_str(), esc(interrogate_function_scoped_name(f)).c_str(), f,
+  printf("{\"kind\":\"%s\",\"index\":%d,\"unique_name\":\"%s\",\"name\":\"%s\",\"function\":\"%s\",\"function_index\":%d,\"is_method\":%d,\"is_constructor\":%d,\"is_destructor\":%d,\"is_copy_constructor\":%d,\"callable_by_name\":%d,\"has_return\":%d,\"caller_manages\":%d,\"prototype\":\"%s\"",
+         kind, w, esc(interrogate_wrapper_unique_name(w)).c_str(), esc(interrogate_wrapper_name(w)).c_str(), esc(interrogate_function_scoped_name(f)).c_str(), f,
          interrogate_function_is_method(f), interrogate_function_is_constructor(f), interrogate_function_is_destructor(f),
          interrogate_wrapper_is_copy_constructor(w), interrogate_wrapper_is_callable_by_name(w), interrogate_wrapper_has_return_value(w),
          interrogate_wrapper_caller_manages_return_value(w), esc(interrogate_function_prototype(f)).c_str());
